@@ -68,12 +68,20 @@ def spell(D, how, spin):
             out[alt] = -1
         return out
     out = {}
+    alll = []
+    for k in D:
+        for l in k:
+            if l not in alll:
+                alll.append(l)
     for k, v in D.items():
         if not k:
             out[k] = v
             continue
         if spin:
             kk = k * 3 if len(k) == 1 else (k[1], k[0], k[1], k[1]) if len(k) == 2 else k + (k[0], k[0])
+            other = [l for l in alll if l not in k]
+            if other and len(k) <= 2:
+                kk = kk + (other[0], other[0])      # a squared FOREIGN label: three distinct labels in the key, still degree <= 2
         else:
             kk = k * 2 if len(k) == 1 else (k[0], k[1], k[0]) if len(k) == 2 else k + (k[1],)
         out[kk] = v
@@ -160,8 +168,12 @@ def check(case, st):
                     kk = tuple((alt.pop(0) if (l == 1 and alt) else l) for l in k) if 1 in k else k
                     M[kk] += v
             else:
-                M = spell(D, cont, spin) if cont in ("dictperm", "dictrep", "dictdup") else gen.build(
-                    cont, spell(D, "dictrep", spin) if is_rep else {k: v for k, v in D.items() if k not in late})
+                src = spell(D, "dictrep", spin) if is_rep else {k: v for k, v in D.items() if k not in late}
+                M, _w = (spell(D, cont, spin), None) if cont in ("dictperm", "dictrep", "dictdup") else call(gen.build, cont, src)
+                if isinstance(M, Raised):
+                    st.violation("build|raises-%s|%s" % (M.kind, "labelled"), dict(case, container=cont_, scheme=sch, fn="build"),
+                                 "C04 %s(%s) raised %r: a valid model (every key denotes at most the type's degree after squashing) is rejected" % (cont, short(src, 200), M.exc))
+                    continue
             if setmap:
                 # convert once BEFORE the enumeration is changed: nothing may remember the old one
                 for _t in ("to_pubo", "to_puso", "to_qubo", "to_quso"):
